@@ -442,6 +442,13 @@ func deepStream(n int) {
 			}
 		}
 		a := aopts{neg: chance(0.7), esc: chance(0.5), limit: pick64(0, 0, 1000000), indent: pick("", "", "", "", "", "", "", "", " ", "\t")}
+		if d == 10000 && whole && chance(0.6) {
+			// the result nests one level deeper than the codec accepts: with an indent string the call must
+			// fail (Indent refuses the text); only the copies, so that nothing else fails first
+			ops = ops[:1]
+			a.indent = pick(" ", "\t")
+			a.limit = 0
+		}
 		emitApply("apply-deep", []byte(doc), ops, joinOps(ops), a, false)
 	}
 }
